@@ -12,6 +12,13 @@ def F(x):
 
 
 def rec_1d(kind, m, ncell, lo, hi, extra):
+    try:
+        return _rec_1d(kind, m, ncell, lo, hi, extra)
+    except Exception as ex:      # e.g. non-finite faces: an observation about the mesh, not a harness failure
+        return dict(kind="raised", dim=1, what="%s: %s" % (type(ex).__name__, str(ex)[:100]), mesh=kind, ncell=ncell)
+
+
+def _rec_1d(kind, m, ncell, lo, hi, extra):
     xf = np.asarray(m.xf, dtype=float)
     vol = np.asarray(m.vol(), dtype=float)
     xc = np.asarray(m.centers(), dtype=float)
@@ -77,6 +84,13 @@ def cases_1d(rep, rnd, tier):
 
 
 def rec_2d(nx, ny, lx, ly):
+    try:
+        return _rec_2d(nx, ny, lx, ly)
+    except Exception as ex:
+        return dict(kind="raised", dim=2, what="%s: %s" % (type(ex).__name__, str(ex)[:100]), nx=nx, ny=ny)
+
+
+def _rec_2d(nx, ny, lx, ly):
     from .driver_obs import FakeModel
     m = fd.mesh2d.mesh2d(nx, ny, lx, ly)
     model = FakeModel()
@@ -109,7 +123,7 @@ def rec_2d(nx, ny, lx, ly):
         for i in range(nx):
             k = nx * j + i
             cen = max(cen, core.ulps(xx[k], (i + Fraction(1, 2)) * dx, float(lx)), core.ulps(yy[k], (j + Fraction(1, 2)) * dy, float(ly)))
-    return dict(dim=2, nx=nx, ny=ny, ncell=int(m.ncell), nbfaces=int(m.nbfaces()), nvol=int(len(vol)),
+    return dict(dim=2, kind="2d", nx=nx, ny=ny, ncell=int(m.ncell), nbfaces=int(m.nbfaces()), nvol=int(len(vol)),
                 vol=max([core.ulps(v, dx * dy, float(dx * dy)) for v in vol] or [core.ULP_CAP]),
                 centers=cen if len(xx) == nx * ny else core.ULP_CAP,
                 tables=tables, orient=orient, normals=normals, normunit=unit, incL=incL, incR=incR, lx=lx, ly=ly)
@@ -137,8 +151,12 @@ def run(tier):
         r["id"] = k + 1
     rep.evaluations = len(recs)
     for kind in ("uni", "refined", "morphed"):
-        rep.sample([r for r in recs if r.get("kind") == kind][2])
-    rep.sample([r for r in recs if r["dim"] == 2][5])
+        ss = [r for r in recs if r.get("kind") == kind]
+        if ss:
+            rep.sample(ss[min(2, len(ss) - 1)])
+    ss = [r for r in recs if r.get("dim") == 2 and r.get("kind") != "raised"]
+    if ss:
+        rep.sample(ss[min(5, len(ss) - 1)])
     wd = core.scratch("c20")
     bad, jr = core.judge("Judge_Mesh", recs, wd)
     rep.add_tlc("Judge_Mesh", jr, counts_as_model=False)
